@@ -91,6 +91,8 @@ S_ENC = ('<div i18n:domain="e"><p i18n:translate="">Bonjour '
          '<b i18n:name="who">${name}</b>${y()}</p><i tal:content="raw">x</i>'
          '<u i18n:translate="" tal:content="raw">x</u>${y()}'
          '<p i18n:translate="">caf\u00e9 ${name}</p></div>')
+# a package-relative name, through the repository's own test package
+PKG_SPEC = "chameleon.tests:inputs/hello_world.pt"
 STRING_OPTIONS = {"xb": {"extra_builtins": {"helper": "EB"}},
                   "enc": {"encoding": "utf-8"}}
 # attribute-then-item lookup on objects of one type of which some have the
@@ -387,7 +389,7 @@ class C14(CheckBase):
                 sk = shared[si]["kind"]
                 argk += 1
                 if sk == "loader":
-                    n = ch.pick(sorted(FILES))
+                    n = PKG_SPEC if ch.coin(0.25) else ch.pick(sorted(FILES))
                     ops.append(["load_render", si, n, argk])
                 elif sk in ("file", "cachedfile") and \
                         shared[si]["name"] in FILE_MACROS and ch.coin(0.5):
@@ -400,6 +402,12 @@ class C14(CheckBase):
                     ops.append(["render", si, argk])
             tasks.append(ops)
         sched = self._gen_sched(ch, ntasks)
+        if any(sh["kind"] == "loader" for sh in shared) and ch.coin(0.35):
+            # (loads of several names through one loader: short operations
+            # with few shared-state lines, where uniform pre-emption at any
+            # line finds more than change points at chosen ones)
+            sched = {"kind": "random", "seed": ch.choose(1 << 30),
+                     "p": ch.pick([0.05, 0.05, 0.2])}
         return {"shared": shared, "tasks": tasks, "sched": sched,
                 "coarse": ch.coin(0.25), "observer": ch.coin(0.5),
                 "obs_start": ch.choose(100000) / 100000.0
@@ -443,7 +451,10 @@ class C14(CheckBase):
             ops = []
             for _ in range(1 if ch.coin(0.7) else 2):
                 if via_loader:
-                    ops.append(["load_render", 0, name, t + 1])
+                    # (now and then a package-relative name: what the
+                    # loader finds out about one name is that name's)
+                    ops.append(["load_render", 0, PKG_SPEC if t and
+                                ch.coin(0.4) else name, t + 1])
                 elif name in FILE_MACROS and ch.coin(0.4):
                     ops.append(["names", 0] if ch.coin(0.4) else
                                ["use", 0, ch.pick(FILE_MACROS[name]), t + 1])
